@@ -142,7 +142,10 @@ def Router.matchStatic (r : Router) (method path : Bytes) : Except Panic (Option
 def Router.matchApi (r : Router) (method path : Bytes) : Except Panic (Option Nat) :=
   r.matchStatic (toUpper method) path
 
-/-- dispatch.go: `path := ctx.Req.URL.Path; if r.useEncodedPath { path = ctx.Req.URL.EscapedPath() }` -/
+/-- dispatch.go: `path := ctx.Req.URL.Path; if r.useEncodedPath { path = ctx.Req.URL.EscapedPath() }`.
+    `urlPath` / `escapedPath` are those of `ctx.Req.URL` at the moment `handleHTTPRequest` runs, i.e. AFTER any
+    rewrite by a wrapping handler (`http.StripPrefix`, a `WrapHTTPHandlers` pre handler) or before a
+    re-dispatch (`HandleContext`); nothing else of the request (`RequestURI`, `Host`, …) takes part. -/
 def Router.requestPath (r : Router) (urlPath escapedPath : Bytes) : Bytes :=
   if r.useEncoded then escapedPath else urlPath
 
